@@ -1,4 +1,7 @@
 ------------------------------- MODULE MC_RpycAsync -------------------------------
 EXTENDS RpycAsync
 MCTimeouts == {NoneT, 0 - 1, 0, 1, 2}
+AllOps == {"set_expiry", "add_callback", "expired", "ready", "poll", "wait"}
+WaitOps == {"set_expiry", "wait"}
+WaitTimeouts == {NoneT, 0, 1, 2}
 ===================================================================================
